@@ -293,16 +293,45 @@ func (_this *Reader) readSmallULEB128(name string, maxValue uint64) uint64 {
 	return asUint
 }
 
+// Largest amount of buffer space reserved ahead of the data that has actually arrived.
+const readAheadLimit = 64 * 1024
+
 func (_this *Reader) readIntoBuffer(count int) {
-	_this.expandBufferTo(count)
-	dst := _this.buffer[:count]
-	for len(dst) > 0 {
-		if bytesRead, err := _this.reader.Read(dst); err != nil {
-			_this.unexpectedError(err)
-		} else {
-			_this.markBytesRead(bytesRead)
-			dst = dst[bytesRead:]
+	if count < 0 {
+		_this.errorf("invalid byte count %v", count)
+	}
+	// A declared length is not trusted with memory: the buffer grows as the data really arrives, so a short
+	// document cannot reserve more than it contains (plus the read-ahead limit).
+	filled := 0
+	for filled < count {
+		end := count
+		if end-filled > readAheadLimit {
+			end = filled + readAheadLimit
 		}
+		_this.growBufferTo(end, filled)
+		dst := _this.buffer[filled:end]
+		for len(dst) > 0 {
+			if bytesRead, err := _this.reader.Read(dst); err != nil {
+				_this.unexpectedError(err)
+			} else {
+				_this.markBytesRead(bytesRead)
+				dst = dst[bytesRead:]
+			}
+		}
+		filled = end
+	}
+}
+
+// Grow the buffer to at least minSize bytes, keeping the first keepCount bytes.
+func (_this *Reader) growBufferTo(minSize int, keepCount int) {
+	if len(_this.buffer) < minSize {
+		newSize := len(_this.buffer) * 2
+		if newSize < minSize {
+			newSize = minSize
+		}
+		newBuffer := make([]byte, newSize)
+		copy(newBuffer, _this.buffer[:keepCount])
+		_this.buffer = newBuffer
 	}
 }
 
